@@ -227,6 +227,73 @@ func sendHistoryProbe() string {
 	return fmt.Sprintf("/-- (history, websocket, receiving) ↦ does a real session write the same bytes as without the history -/\ndef sendHistoryProbe : Option (List (String × Bool × Bool × String)) := some [\n  %s]\n\n", strings.Join(rows, ",\n  "))
 }
 
+// sessionOn runs one session of kind k (bit 0: receiving, bit 1: s2s) on the negotiator value neg
+// and returns what it wrote (stream id blanked) followed by the content namespace Session.Out()
+// reports.
+func sessionOn(neg xmpp.Negotiator, ws bool, k int, n int) string {
+	recv, s2s := k&1 != 0, k&2 != 0
+	loc := jid.MustParse(fmt.Sprintf("h%d.example", n))
+	orig := jid.MustParse(fmt.Sprintf("u%d@h%d.example/r'%d", n, n, n))
+	var st xmpp.SessionState
+	xmlns := "jabber:client"
+	if s2s {
+		st |= xmpp.S2S
+		xmlns = "jabber:server"
+	}
+	var conn *nc.Conn
+	var sess *xmpp.Session
+	if p := common.Recover(func() {
+		if recv {
+			conn = nc.NewConn(nc.S(peerHeader(ws, xmlns, "", orig.String(), loc.String())))
+			sess, _ = xmpp.NewSession(context.Background(), loc, orig, conn, st|xmpp.Received, neg)
+		} else {
+			conn = nc.NewConn()
+			sess, _ = xmpp.NewSession(context.Background(), loc, orig, conn, st, neg)
+		}
+	}); p != "" || sess == nil {
+		return "panic"
+	}
+	return string(idAttrRe.ReplaceAll(conn.Written(), []byte(" id='ID'"))) + "|" + sess.Out().XMLNS
+}
+
+// negSharedProbe (round E): ONE Negotiator value serves every sequence of 2 and 3 sessions over the
+// four kinds (role x c2s/s2s), per framing; the LAST session of the sequence is compared with the
+// same session (same addresses) on a negotiator value of its own.  Row: (websocket, kinds of the
+// sequence, "same" | "differs", content namespace the last header declares on TCP / Out() on ws).
+func negSharedProbe() string {
+	var rows []string
+	for _, ws := range []bool{false, true} {
+		var seqs [][]int
+		for a := 0; a < 4; a++ {
+			for b := 0; b < 4; b++ {
+				seqs = append(seqs, []int{a, b})
+				for c := 0; c < 4; c++ {
+					seqs = append(seqs, []int{a, b, c})
+				}
+			}
+		}
+		for _, sq := range seqs {
+			shared := negotiator(ws, "en")
+			last := ""
+			for i, k := range sq {
+				last = sessionOn(shared, ws, k, i)
+			}
+			alone := sessionOn(negotiator(ws, "en"), ws, sq[len(sq)-1], len(sq)-1)
+			res := "differs"
+			if last == alone && alone != "panic" && !strings.HasPrefix(alone, "|") {
+				res = "same"
+			}
+			ns := last[strings.LastIndex(last, "|")+1:]
+			var ks []string
+			for _, k := range sq {
+				ks = append(ks, strconv.Itoa(k))
+			}
+			rows = append(rows, fmt.Sprintf("(%v, [%s], %q, %q)", ws, strings.Join(ks, ", "), res, ns))
+		}
+	}
+	return fmt.Sprintf("/-- (websocket, kinds of the sessions ONE negotiator value served in this order; kind = receiving + 2*s2s) ↦\n(does the last session write what it writes on a negotiator value of its own, content namespace its Out() reports) -/\ndef negSharedProbe : Option (List (Bool × List Nat × String × String)) := some [\n  %s]\n\n", strings.Join(rows, ",\n  "))
+}
+
 // Facts regenerates lean/XmppModel/Generated/C12.lean:
 //
 //   - sendRawAttrs: the attributes internal/stream.Send prints with a bare %s inside quotes
@@ -340,6 +407,7 @@ func Facts(repo string) (string, error) {
 	// ---- 5. round D: the address comparison on all pairs, the header after every history ----
 	sb.WriteString(jidEqualProbe())
 	sb.WriteString(sendHistoryProbe())
+	sb.WriteString(negSharedProbe())
 	sb.WriteString("end XmppModel.Generated.C12\n")
 	return sb.String(), nil
 }
